@@ -195,7 +195,7 @@ func c13InitChildBody(t *testing.T, seed uint64, kind int) {
 			ps.Go(func() {
 				ps.Yield()
 				_, e := svc.Store().Head(ctx)
-			setH(e)
+				setH(e)
 			})
 			height = svc.Store().Height
 		} else {
@@ -213,7 +213,7 @@ func c13InitChildBody(t *testing.T, seed uint64, kind int) {
 				ps.Go(func() {
 					ps.Yield()
 					_, e := svc.Store().Head(ctx)
-			setH(e)
+					setH(e)
 				})
 			}
 			height = svc.Store().Height
